@@ -147,7 +147,18 @@ def check_case(ctx, case):
     ranges = [(int(n.network_address), int(n.broadcast_address), str(n)) for n in pinned]
     anon = ipgen.build(cfg)
     mask = (1 << B) - 1
+    undo_mix = rng.random() < 0.5
     for a in addrs:
+        if undo_mix and rng.random() < 0.2:
+            # the same object may have been asked to undo this very value (or a host-bit twin of it) before: what it
+            # then answers for the forward request must still keep membership and host bits
+            x = a if (not B or rng.random() < 0.6) else (a & ~mask) | rng.getrandbits(B)
+            dx = anon.deanonymize(x)
+            ctx.count("undo_requests_interleaved")
+            if B and (dx & mask) != (x & mask):
+                ctx.violation(dict(case, addrs=[x]), "host-bits-altered:undo",
+                              "trailing %d bits of %s changed by undo: %s" % (B, _s(cfg, x), _s(cfg, dx)))
+                return
         fa = anon.anonymize(a)
         ctx.ev()
         for lo, hi, name in ranges:
